@@ -18,7 +18,7 @@ ASSUMPTIONS = ['an exhausted RandomGen returns the same set whatever the PRNG se
 BUDGET_S = {'quick': 60, 'thorough': 300}
 STRATA = ['S1', 'S1L', 'S1n', 'S1p', 'S1x', 'S1xa', 'S3s', 'S2', 'S2s', 'S3', 'S4', 'S5', 'S6']
 QUICK_CAPS = dsw.QUICK_CAPS_BIG
-CAP = {'quick': 250, 'thorough': 1500}
+CAP = {'quick': 250, 'thorough': 1000}
 
 
 def items(tier, seed):
